@@ -316,6 +316,9 @@ class C22(Check):
 
     def run_shard(self, tier, seed, shard, nshards):
         res = ShardResult()
+        if not jitlab.shard_enabled(shard):
+            res.dropped["shard-not-selected(VERIF_ONLY_SHARDS)"] += 1
+            return res
         rng = random.Random(seed)
         hs = []
         for arch in ("x86_32", "arml"):
